@@ -89,10 +89,17 @@ def oracle_case(cid, c, out):
             if len(r) != 4:
                 return ["bad observation %r at op %d" % (obs[k], k)], st
             per_op.append((op, r[0], parse_synced(r[1]), int(r[2])))
+            if kind == "M":
+                # three replicas fed the same committed entries (replica 2 restarted now and then) never differ
+                for n_, fo in enumerate(r[3].split("|")):
+                    if fo != "%s,%s" % (r[1], r[2]):
+                        fails.append("replica %d differs from the leader after %s: %s vs %s,%s" % (n_ + 1, op, fo, r[1], r[2]))
         k += 1
     if k >= len(obs) or not obs[k].startswith("END "):
         return ["missing END dump"], st
     j, n, a = parse_dump(obs[k][4:])
+    if kind == "M" and (k + 1 >= len(obs) or obs[k + 1] != "REPL same"):
+        fails.append("the replicas' data differ at the end: " + (obs[k + 1] if k + 1 < len(obs) else "missing"))
     # --- per-op checks: position never moves backwards, changes only together with applied data,
     #     is untouched by deliveries/losses/snapshots, and (with the data) survives a restart
     prev_s, prev_len = {}, 0
@@ -222,6 +229,16 @@ def oracle_m0(cases, impl):
             if len(r) != 4:
                 break
             cur = (r[1], r[2])
+            if c[0] == "M":
+                bad = [fo for fo in r[3].split("|") if fo != "%s,%s" % (r[1], r[2])]
+                if bad:
+                    fails.append(dict(name="m0-" + cid, signature=M0_SIGNATURE,
+                                      case=dict(cases_tsv=["\t".join([cid] + c)], impl=out, leader=cur, follower=bad[0]),
+                                      what="replicas of a non-syncer-only receiver diverge after %s: leader %s,%s follower %s "
+                                           "(the restarted replica replays without the conflict pre-check)" % (op, r[1], r[2], bad[0])))
+                    break
+                prev = cur
+                continue
             if (op.startswith("R:") or op.startswith("Y:")) and prev is not None and cur != prev:
                 fails.append(dict(name="m0-" + cid, signature=M0_SIGNATURE,
                                   case=dict(cases_tsv=["\t".join([cid] + c)], impl=out, before=prev, after=cur),
@@ -307,7 +324,7 @@ def shrink_case(ctx, cid, c, first_failure=None, budget=120):
     return [c[0], c[1], c[2], " ".join(w + body + q)]
 
 
-def run_impl(ctx, seed, n, sub, replay_file=None, engines="mem", nb=0, ne=0):
+def run_impl(ctx, seed, n, sub, replay_file=None, engines="mem", nb=0, ne=0, nm=0):
     d = os.path.join(ctx.run_dir, sub)
     shutil.rmtree(d, ignore_errors=True)
     os.makedirs(d)
@@ -316,7 +333,7 @@ def run_impl(ctx, seed, n, sub, replay_file=None, engines="mem", nb=0, ne=0):
     if replay_file:
         cmd = "%s -replay %s -out %s -port %d" % (binp, replay_file, d, port)
     else:
-        cmd = "%s -seed %d -n %d -nb %d -ne %d -engines %s -out %s -port %d" % (binp, seed, n, nb, ne, engines, d, port)
+        cmd = "%s -seed %d -n %d -nm %d -nb %d -ne %d -engines %s -out %s -port %d" % (binp, seed, n, nm, nb, ne, engines, d, port)
     rc, out, dt = sh(cmd, cwd=d, timeout=3000)
     if rc == 3:
         # the live server (child process) did not come up or died: time/port dependent, one retry
@@ -367,16 +384,16 @@ def run(ctx):
                             f.write(line if line.endswith("\n") else line + "\n")
             runs.append(dict(sub="corpus", replay=cf))
         if quick:
-            runs.append(dict(sub="fresh", n=350, nb=6, ne=6, engines="mem"))
+            runs.append(dict(sub="fresh", n=330, nm=30, nb=6, ne=6, engines="mem"))
         else:
-            runs.append(dict(sub="fresh", n=4500, nb=120, ne=60, engines="mem,pebble,rocksdb"))
+            runs.append(dict(sub="fresh", n=4300, nm=300, nb=120, ne=60, engines="mem,pebble,rocksdb"))
             runs.append(dict(sub="fresh-pebble-live", n=0, nb=30, ne=15, engines="pebble"))
 
     all_mism, all_fail, total, evals, hist_all, samples, distinct = [], [], 0, 0, {}, [], set()
     m0_fail = []
     for r in runs:
         d, err = run_impl(ctx, ctx.seed, r.get("n", 0), r["sub"], replay_file=r.get("replay"),
-                          engines=r.get("engines", "mem"), nb=r.get("nb", 0), ne=r.get("ne", 0))
+                          engines=r.get("engines", "mem"), nb=r.get("nb", 0), ne=r.get("ne", 0), nm=r.get("nm", 0))
         if d is None and err.startswith("INCONCLUSIVE") and r.get("nb", 0) > 0 and not r.get("replay"):
             ctx.notes.append("live server inconclusive twice (start/ports); live cases of run %s skipped" % r["sub"])
             if r.get("n", 0) == 0:
